@@ -1,6 +1,8 @@
 import RF.Driver.Diff
 import RF.Driver.CargoFmt
 import RF.Driver.FormatLines
+import RF.Driver.FileLines
+import RF.Driver.FormatDiff
 /-!
 `rfmodel`: one request per line on stdin, one response per line on stdout.
 `?` is printed for a request no handler understands (the harness treats it as a protocol error,
@@ -10,7 +12,9 @@ never as agreement).  Nothing is proved about this loop; it only routes lines to
 def handlers : List (String → List String → Option String) :=
   [RF.Driver.Diff.handle,
    RF.Driver.CargoFmt.handle,
-   RF.Driver.FormatLines.handle]
+   RF.Driver.FormatLines.handle,
+   RF.Driver.FileLines.handle,
+   RF.Driver.FormatDiff.handle]
 
 def dispatch (line : String) : String :=
   match (line.trimAscii.toString.splitOn " ").filter (· ≠ "") with
